@@ -377,6 +377,87 @@
                     }
                 }
             }
+
+            // curve lin|gam|rt <tc idx> <xbits>: C03 / C10 on one input, f64 oracle from the defining formulas
+            "curve" => {
+                fn g709(e: f64) -> f64 { if e < 0.018 { 4.5 * e } else { 1.099 * e.powf(0.45) - 0.099 } }
+                fn g709i(v: f64) -> f64 { if v < 4.5 * 0.018 { v / 4.5 } else { ((v + 0.099) / 1.099).powf(1.0 / 0.45) } }
+                fn pqc() -> (f64, f64, f64, f64, f64) { (2610.0 / 16384.0, 2523.0 / 32.0, 3424.0 / 4096.0, 2413.0 / 128.0, 2392.0 / 128.0) }
+                fn pq_inv_eotf(y: f64) -> f64 { let (m1, m2, c1, c2, c3) = pqc(); let p = y.powf(m1); ((c1 + c2 * p) / (1.0 + c3 * p)).powf(m2) }
+                fn pq_eotf(v: f64) -> f64 { let (m1, m2, c1, c2, c3) = pqc(); let p = v.powf(1.0 / m2); ((p - c1).max(0.0) / (c2 - c3 * p)).powf(1.0 / m1) }
+                fn def(t: TC, to_linear: bool, x: f64) -> Option<f64> {
+                    Some(match t {
+                        TC::BT1886 | TC::ST170M | TC::ST240M | TC::BT2020Ten | TC::BT2020Twelve | TC::XVYCC => if to_linear { x.powf(2.4) } else { x.powf(1.0 / 2.4) },
+                        TC::BT470M => if to_linear { x.powf(2.2) } else { x.powf(1.0 / 2.2) },
+                        TC::BT470BG => if to_linear { x.powf(2.8) } else { x.powf(1.0 / 2.8) },
+                        TC::SRGB => if to_linear { if x <= 0.04045 { x / 12.92 } else { ((x + 0.055) / 1.055).powf(2.4) } } else if x <= 0.0031308 { 12.92 * x } else { 1.055 * x.powf(1.0 / 2.4) - 0.055 },
+                        TC::Logarithmic100 => if to_linear { 10f64.powf(2.0 * (x - 1.0)) } else if x < 0.01 { 0.0 } else { 1.0 + x.log10() / 2.0 },
+                        TC::Logarithmic316 => if to_linear { 10f64.powf(2.5 * (x - 1.0)) } else if x < 0.0031622776601683794 { 0.0 } else { 1.0 + x.log10() / 2.5 },
+                        TC::PerceptualQuantizer => if to_linear { g709i((100.0 * pq_eotf(x)).powf(1.0 / 2.4)) / 59.5208 } else { pq_inv_eotf(g709(59.5208 * x).powf(2.4) / 100.0) },
+                        TC::HybridLogGamma => if to_linear { if x <= 0.5 { x * x / 3.0 } else { (((x - 0.55991073) / 0.17883277).exp() + 0.28466892) / 12.0 } } else if x <= 1.0 / 12.0 { (3.0 * x).sqrt() } else { 0.17883277 * (12.0 * x - 0.28466892).ln() + 0.55991073 },
+                        TC::Linear => x,
+                        _ => return None,
+                    })
+                }
+                let t = TC_ALL[hx(&a[1]) as usize]; let x = fb(&a[2]);
+                let lin = |t: TC, x: f32| LinearRgb::try_from(Rgb::new(vec![[x, 0.5, 0.25]], 1, 1, t, CP::BT709).unwrap()).unwrap().data()[0][0];
+                let gam = |t: TC, x: f32| Rgb::try_from((LinearRgb::new(vec![[x, 0.5, 0.25]], 1, 1).unwrap(), t, CP::BT709)).unwrap().data()[0][0];
+                let inr = x >= 0.0 && x <= 1.0;
+                let mut bad = Vec::new();
+                let alias = matches!(t, TC::ST170M | TC::ST240M | TC::BT2020Ten | TC::BT2020Twelve);
+                match a[0].as_str() {
+                    "lin" | "gam" => {
+                        let tl = a[0] == "lin";
+                        let y = if tl { lin(t, x) } else { gam(t, x) };
+                        if alias { let r = if tl { lin(TC::BT1886, x) } else { gam(TC::BT1886, x) }; if r.to_bits() != y.to_bits() { bad.push(format!("alias differs from BT.1886: {} vs {}", y, r)); } }
+                        if t == TC::Linear && y.to_bits() != x.to_bits() { bad.push("Linear is not the identity".to_string()); }
+                        if inr { if let Some(w) = def(t, tl, f64::from(x)) { let tol = if t == TC::PerceptualQuantizer && !tl { 5.7e-4 } else { 2.5e-4 };
+                            if (f64::from(y) - w).abs() >= tol { bad.push(format!("{} vs defining formula {} (|err| {:.3e} >= {:.1e})", y, w, (f64::from(y) - w).abs(), tol)); } } }
+                        out(!bad.is_empty(), format!("{:?} {} x={}: {}", t, a[0], x, if bad.is_empty() { format!("ok ({})", y) } else { bad.join("; ") }));
+                    }
+                    _ => {
+                        let y = gam(t, lin(t, x));
+                        let tol = if t == TC::PerceptualQuantizer { 5.7e-4 } else { 2.5e-4 };
+                        out(inr && !((y - x).abs() < tol), format!("{:?} round trip x={} -> {} (tol {:.1e})", t, x, y, tol));
+                    }
+                }
+            }
+
+            // prim <in idx> <out idx> r g b : C06 on one pixel against the CIE derivation in f64
+            "prim" => {
+                fn xy(p: CP) -> Option<[[f64; 2]; 3]> { Some(match p {
+                    CP::BT709 => [[0.640, 0.330], [0.300, 0.600], [0.150, 0.060]], CP::BT470M => [[0.67, 0.33], [0.21, 0.71], [0.14, 0.08]],
+                    CP::BT470BG => [[0.64, 0.33], [0.29, 0.60], [0.15, 0.06]], CP::ST170M | CP::ST240M => [[0.630, 0.340], [0.310, 0.595], [0.155, 0.070]],
+                    CP::Film => [[0.681, 0.319], [0.243, 0.692], [0.145, 0.049]], CP::BT2020 => [[0.708, 0.292], [0.170, 0.797], [0.131, 0.046]],
+                    CP::P3DCI | CP::P3Display => [[0.680, 0.320], [0.265, 0.690], [0.150, 0.060]], CP::Tech3213 => [[0.630, 0.340], [0.295, 0.605], [0.155, 0.077]], _ => return None }) }
+                fn white(p: CP) -> [f64; 2] { match p { CP::BT470M | CP::Film => [0.310, 0.316], CP::ST428 => [1.0 / 3.0, 1.0 / 3.0], CP::P3DCI => [0.314, 0.351], _ => [0.3127, 0.3290] } }
+                fn xyz(c: [f64; 2]) -> [f64; 3] { [c[0] / c[1], 1.0, (1.0 - c[0] - c[1]) / c[1]] }
+                type M = [[f64; 3]; 3];
+                fn mul(a: &M, b: &M) -> M { let mut r = [[0.0; 3]; 3]; for i in 0..3 { for j in 0..3 { for k in 0..3 { r[i][j] += a[i][k] * b[k][j]; } } } r }
+                fn mv(a: &M, v: [f64; 3]) -> [f64; 3] { [a[0][0] * v[0] + a[0][1] * v[1] + a[0][2] * v[2], a[1][0] * v[0] + a[1][1] * v[1] + a[1][2] * v[2], a[2][0] * v[0] + a[2][1] * v[1] + a[2][2] * v[2]] }
+                fn inv(m: &M) -> M { let [[a, b, c], [d, e, f], [g, h, i]] = *m; let det = a * (e * i - f * h) - b * (d * i - f * g) + c * (d * h - e * g);
+                    [[(e * i - f * h) / det, (c * h - b * i) / det, (b * f - c * e) / det], [(f * g - d * i) / det, (a * i - c * g) / det, (c * d - a * f) / det], [(d * h - e * g) / det, (b * g - a * h) / det, (a * e - b * d) / det]] }
+                fn r2x(p: CP) -> M { if p == CP::ST428 { return [[1.0, 0.0, 0.0], [0.0, 1.0, 0.0], [0.0, 0.0, 1.0]]; }
+                    let c = xy(p).unwrap(); let cols = [xyz(c[0]), xyz(c[1]), xyz(c[2])];
+                    let m: M = [[cols[0][0], cols[1][0], cols[2][0]], [cols[0][1], cols[1][1], cols[2][1]], [cols[0][2], cols[1][2], cols[2][2]]];
+                    let s = mv(&inv(&m), xyz(white(p)));
+                    [[m[0][0] * s[0], m[0][1] * s[1], m[0][2] * s[2]], [m[1][0] * s[0], m[1][1] * s[1], m[1][2] * s[2]], [m[2][0] * s[0], m[2][1] * s[1], m[2][2] * s[2]]] }
+                let (pi, po) = (CP_ALL[hx(&a[0]) as usize], CP_ALL[hx(&a[1]) as usize]);
+                let px = [fb(&a[2]), fb(&a[3]), fb(&a[4])];
+                let got = if po == CP::BT709 { LinearRgb::try_from(Rgb::new(vec![px], 1, 1, TC::Linear, pi).unwrap()).unwrap().data()[0] }
+                    else { Rgb::try_from((LinearRgb::new(vec![px], 1, 1).unwrap(), TC::Linear, po)).unwrap().data()[0] };
+                let br: M = [[0.8951, 0.2664, -0.1614], [-0.7502, 1.7135, 0.0367], [0.0389, -0.0685, 1.0296]];
+                let (wi, wo) = (xyz(white(pi)), xyz(white(po)));
+                let ad: M = if wi == wo { [[1.0, 0.0, 0.0], [0.0, 1.0, 0.0], [0.0, 0.0, 1.0]] } else { let (ri, ro) = (mv(&br, wi), mv(&br, wo));
+                    mul(&mul(&inv(&br), &[[ro[0] / ri[0], 0.0, 0.0], [0.0, ro[1] / ri[1], 0.0], [0.0, 0.0, ro[2] / ri[2]]]), &br) };
+                let t = mul(&mul(&inv(&r2x(po)), &ad), &r2x(pi));
+                let v = [f64::from(px[0]), f64::from(px[1]), f64::from(px[2])];
+                let want = mv(&t, v);
+                let inbox = px.iter().all(|c| c.is_finite() && *c >= -0.5 && *c <= 2.0);
+                let n = v.iter().fold(1.0f64, |m, c| m.max(c.abs()));
+                let err = (0..3).map(|k| (f64::from(got[k]) - want[k]).abs()).fold(0.0, f64::max);
+                out(inbox && err > 1e-5 * n, format!("{:?}->{:?} {:?}: got {:?} CIE {:?} err {:.3e} (allowed {:.3e})", pi, po, px, got, want, err, 1e-5 * n));
+            }
             _ => { eprintln!("unknown replay kind {}", kind); std::process::exit(64); }
         }
     }
